@@ -14,7 +14,11 @@ use std::sync::atomic::{AtomicBool, AtomicU64, Ordering};
 use std::sync::Mutex;
 use std::time::Instant;
 
-pub const VERIF_ROOT: &str = "/verif";
+/// Root directory for evidence, replays and known findings (QV_ROOT overrides it for sensitivity
+/// runs against scratch copies so they do not touch /verif)
+pub fn verif_root() -> String {
+    std::env::var("QV_ROOT").unwrap_or_else(|_| "/verif".to_string())
+}
 
 #[derive(Clone, Copy, Debug, PartialEq, Eq)]
 pub enum Tier {
@@ -168,19 +172,13 @@ pub fn catch<R>(f: impl FnOnce() -> R) -> Result<R, PanicInfo> {
     }
 }
 
-/// Policy for honest-peer checks: a non-overflow panic in quinn is a violation of the property
-/// being checked; an overflow panic in quinn is inconclusive here (it belongs to C03); a panic in
-/// the harness is a harness bug (inconclusive).
-pub fn panic_to_case(p: PanicInfo, strict_overflow: bool) -> CaseOut {
+/// Panic policy: any panic raised inside quinn code while executing a generated case (arithmetic
+/// overflow included: the harness is built with overflow-checks on precisely to make wrapping
+/// visible) is a violation with signature `panic@<file>:<line>`; a panic in the harness itself is
+/// a harness bug and reported as inconclusive.
+pub fn panic_to_case(p: PanicInfo, _strict: bool) -> CaseOut {
     if p.in_quinn() {
-        if p.is_overflow() && !strict_overflow {
-            CaseOut::inconclusive(format!("overflow panic in quinn at {}: {}", p.site(), p.msg))
-        } else {
-            CaseOut::fail(
-                format!("panic@{}", p.site()),
-                format!("panic in quinn at {}: {}", p.site(), p.msg),
-            )
-        }
+        CaseOut::fail(format!("panic@{}", p.site()), format!("panic in quinn at {}: {}", p.site(), p.msg))
     } else {
         CaseOut::inconclusive(format!("harness panic at {}:{}: {}", p.file, p.line, p.msg))
     }
@@ -203,7 +201,7 @@ pub struct KnownFinding {
 }
 
 pub fn load_known() -> Vec<KnownFinding> {
-    let p = format!("{VERIF_ROOT}/known_findings.json");
+    let p = format!("{}/known_findings.json", verif_root());
     match std::fs::read_to_string(&p) {
         Ok(s) => serde_json::from_str(&s).expect("known_findings.json must parse"),
         Err(_) => vec![],
@@ -297,7 +295,7 @@ impl Report {
         f.check.hash(&mut h);
         f.scenario.to_string().hash(&mut h);
         let name = format!("{}-{}-{:012x}.json", f.property, f.check, h.finish() & 0xffff_ffff_ffff);
-        let dir = PathBuf::from(format!("{VERIF_ROOT}/replays"));
+        let dir = PathBuf::from(format!("{}/replays", verif_root()));
         let _ = std::fs::create_dir_all(&dir);
         let path = dir.join(name);
         let _ = std::fs::write(&path, serde_json::to_string_pretty(&f).unwrap());
@@ -390,7 +388,7 @@ impl Report {
             "violations": violations,
         });
         if !self.opts.no_evidence {
-            let dir = format!("{VERIF_ROOT}/evidence");
+            let dir = format!("{}/evidence", verif_root());
             let _ = std::fs::create_dir_all(&dir);
             let path = format!("{dir}/{}.json", self.opts.prop);
             std::fs::write(&path, serde_json::to_string_pretty(&ev).unwrap()).expect("write evidence");
